@@ -12,6 +12,10 @@ Only the known sources of non-determinism / observer effects are excluded struct
 * C13.no-hash-order      no ordered output is produced by iterating a set.
 * C13.no-shared-default  no mutable default argument is stored or mutated (state shared across calls).
 * C13.registry-complete  importing the package registers every Analysis before any verdict can be asked.
+* C13.no-process-state   nothing reachable from a read-only query (parse, decompile, analyse, trace, summaries)
+                         changes a process-wide setting (recursion limit, environment, cwd, warning filters, ...):
+                         such a change - even if restored afterwards - makes one query succeed where the same
+                         query asked directly fails, and what it caches then answers the later ones.
 """
 
 from __future__ import annotations
@@ -387,6 +391,47 @@ def check_one_shot(repo: Repo, rep: Report):
                         rep.bad("C13.no-one-shot", f.qualname, f"iterator-attribute:{src(store_targets(n)[0])}", f"`{src(n)}` keeps a one-shot iterator on the Pickled object: the second reader finds it exhausted", f.file, n.lineno)
 
 
+def check_process_state(repo: Repo, rep: Report):
+    from ..callgraph import CallGraph
+    from ..effects import PROCESS_STATE_SETTERS
+    from .c01 import analysis_reach, entry_points
+
+    cg = CallGraph(repo)
+    reached, parent, sites = analysis_reach(repo, cg, entry_points(repo))
+    if len(reached) < 150:
+        raise AnalysisError(f"only {len(reached)} functions reached from the query entry points (about 200 on the pinned tree)")
+    n = 0
+    for s0 in sites:
+        for q in sorted(s0.externals):
+            if q in PROCESS_STATE_SETTERS:
+                n += 1
+                rep.bad("C13.no-process-state", s0.func.qualname, f"process-setting:{q}", f"`{src(s0.node)}` changes a process-wide setting from inside a read-only query (reached via {' -> '.join(cg.path_to(parent, s0.func.qualname)[-4:])}): whether a later (or the same) question succeeds now depends on which query was asked first, and results computed under the changed setting are cached", s0.func.file, s0.line)
+    # stores to sys.* / os.environ[...] in reached functions
+    for qn, f in reached.items():
+        local_imports = {}
+        for st in body_walk(f.node):
+            if isinstance(st, ast.Import):
+                for a in st.names:
+                    local_imports[(a.asname or a.name).split(".")[0]] = a.name if a.asname else a.name.split(".")[0]
+            if isinstance(st, ast.ImportFrom) and st.module and not st.level:
+                for a in st.names:
+                    local_imports[a.asname or a.name] = f"{st.module}.{a.name}"
+        for st in body_walk(f.node):
+            if isinstance(st, (ast.Assign, ast.AugAssign, ast.AnnAssign, ast.Delete)):
+                for t in store_targets(st):
+                    b = base_of(t)
+                    d = dotted(b) or ""
+                    root = d.split(".")[0]
+                    if root in f.params() or not d:
+                        continue
+                    tgt = local_imports.get(root) or (repo.resolve_expr(f.module, ast.Name(id=root, ctx=ast.Load()), set(f.params())) if root in f.module.imports else "") or ""
+                    tgt = tgt.split(".")[0] if tgt.split(".")[0] in ("sys", "os", "locale", "gc", "warnings", "builtins") else tgt
+                    if tgt in ("sys", "os", "locale", "gc", "warnings", "builtins") and (isinstance(t, ast.Subscript) or "." in d):
+                        n += 1
+                        rep.bad("C13.no-process-state", qn, f"process-store:{d}", f"`{src(st)}` writes `{d}` (process-wide state) from inside a read-only query", f.file, st.lineno)
+    rep.ok("C13.no-process-state", "fickling/* (query entry points)", f"{len(reached)} reached functions, {len(sites)} call sites: {n} change(s) of process-wide settings", "")
+
+
 def run(rep: Report, tier: str):
     repo = load_repo()
     rep.explanation = (
@@ -401,9 +446,11 @@ def run(rep: Report, tier: str):
     rep.rule("C13.no-hash-order", "no ordered output from iterating a set", 1)
     rep.rule("C13.no-shared-default", "no mutable default argument is stored or mutated", 1)
     rep.rule("C13.registry-complete", "the analysis registry is complete after importing the package", 2)
+    rep.rule("C13.no-process-state", "no read-only query changes a process-wide setting (recursion limit, environment, cwd, filters)", 1)
     check_one_shot(repo, rep)
     check_read_only(repo, rep)
     check_cache_atomic(repo, rep)
     check_hash_order(repo, rep)
     check_shared_default(repo, rep)
     check_registry(repo, rep)
+    check_process_state(repo, rep)
